@@ -26,6 +26,13 @@ Theorem C01_source_tables :
 Proof. exact source_tables. Qed.
 Print Assumptions C01_source_tables.
 
+(* the two constants of the column-count check that the hand model reads from the regenerated tables and that no
+   other theorem fixes: which formats may be short, and by how many columns *)
+Theorem C01_source_constants :
+  gen_relaxed_formats = ["Oscar2013Extended"; "Oscar2013Extended_IC"] /\ gen_relax_slack = 2%nat.
+Proof. exact source_constants. Qed.
+Print Assumptions C01_source_constants.
+
 (* Particle(): 25 nan slots, pdg_valid False *)
 Theorem C01_source_init_blank : forall o,
   gen_init o gen_default_init_input_format gen_default_init_particle_array gen_default_init_attribute_list = Ok blank.
